@@ -16,7 +16,8 @@ FloatTexts == {[neg |-> n, int |-> i, frac |-> f, eneg |-> en, exp |-> e] :
                  n \in BOOLEAN, i \in {<<>>, <<0>>, <<1>>, <<1, 2>>, <<9, 9, 9>>}, f \in {<<>>, <<5>>, <<0, 1>>, <<2, 5, 0>>},
                  en \in BOOLEAN, e \in {<<>>, <<0>>, <<3>>, <<1, 0>>, <<3, 0, 0>>}}
 \* an optional numeric column: short integer texts and the '.' placeholder (also an empty cell) that stands for a missing value
-OptTexts == {s \in IntTexts : Len(s) <= 2} \cup {<<DOT>>, <<>>}
+\* (and two values that need more than 32 bits, so that the width of the result does not depend on how the missing value is given)
+OptTexts == {s \in IntTexts : Len(s) <= 2} \cup {<<DOT>>, <<>>} \cup {<<3, 0, 0, 0, 0, 0, 0, 0, 0, 7>>, <<MINUS, 9, 0, 0, 0, 0, 0, 0, 0, 0, 1>>}
 \* float texts with more digits than a double holds (written by %.20f and the like): the value is still the decimal number
 \* 17 significant digits, a sign and a two- or three-digit exponent of either sign: the longest shortest-round-trip texts of a double
 D17 == <<2, 3, 4, 5, 6, 7, 8, 9, 0, 1, 2, 3, 4, 5, 6, 7>>
